@@ -6,7 +6,10 @@
    documented conditional filter (nothing invented, order kept, nothing dropped when the format is
    unchanged). The end-to-end characterisation (expected ancillary list of the output) is decided
    per run by model replay + the declarative oracle; the known re-ordering of bKGD/hIST after plain
-   chunks is finding F9. *)
+   chunks is finding F9.
+   FILE TO FILE (second half of this file): closed formula for the ancillary list from_slice builds, the ICC decision and the conditional
+   drops per side of the image data, the chunk sequence written, the whole call (C07_file_chunk_flow); order across the two classes
+   written before IDAT is refuted with the F9 witness (C07_order_refuted). *)
 From OxiVerif Require Import Base.Common Model.Types Model.Options Model.Headers Model.PngData Proofs.ChunkProofs.
 From OxiVerif Require Gen.SrcConsts.
 
